@@ -5,6 +5,7 @@ Cancellable = {"b"}
 MaxGen = 3
 Kinds = {"ok", "notready", "nosc", "status", "err"}
 MaxFlips = 0
+Reswap = FALSE
 Mutant = 0
 INIT Init
 NEXT Next
